@@ -50,7 +50,7 @@ REQUIRED_CLASSES = [
 BOUND = {
     'quick': '1-d grids up to 3 bins (39 arrangements each for [spectrum] and [tof]); 2-d grids (1,2),(2,1) all 9 arrangements and '
              '(2,2) with counts from {0,3} (16); x 2 buffers x 2 geometries x edges x 2 containers x 6 targets x 3 dtypes',
-    'thorough': '1-d grids up to 4 bins (120 arrangements each); 2-d grids (1,1),(1,2),(2,1),(2,2) all 102 arrangements for both '
+    'thorough': '1-d grids up to 4 bins (120 arrangements each); 2-d grids (1,1),(1,2),(2,1),(2,2),(1,3),(3,1) all 156 arrangements for both '
                 '[spectrum,tof] and [y,x]; same other axes',
 }
 
@@ -72,7 +72,7 @@ def cases(tier):
         for c in _arr((n,)):
             layouts.append((['spectrum'], [n], c))
             layouts.append((['tof'], [n], c))
-    shapes2 = [(1, 2), (2, 1), (2, 2)] if tier == 'quick' else [(1, 1), (1, 2), (2, 1), (2, 2)]
+    shapes2 = [(1, 2), (2, 1), (2, 2)] if tier == 'quick' else [(1, 1), (1, 2), (2, 1), (2, 2), (1, 3), (3, 1)]
     for shp in shapes2:
         alpha = (0, 3) if (tier == 'quick' and shp == (2, 2)) else COUNTS
         for c in _arr(shp, alpha):
